@@ -21,7 +21,7 @@ from typing import TYPE_CHECKING, Any
 # Project imports
 #
 import asimap.trace
-from asimap.generator import get_msg_size, msg_as_bytes, msg_headers_as_bytes
+from asimap.generator import msg_as_bytes, msg_headers_as_bytes
 from asimap.parse import IMAPClientCommand, IMAPCommand
 from asimap.pop3_parse import BadPOP3Command, parse_pop3_command
 from asimap.trace import trace
@@ -38,6 +38,24 @@ logger = logging.getLogger(__name__)
 # Format: {<digits>}\n
 #
 RE_LITERAL_STRING_START = re.compile(rb"\{(\d+)\}")
+
+
+########################################################################
+#
+_BARE_LF_RE = re.compile(rb"(?<!\r)\n")
+
+
+########################################################################
+#
+def crlf_lines(data: bytes) -> bytes:
+    """
+    The lines of a multi-line response end with CRLF. What the email package
+    keeps as a raw string (the body of a `multipart` in which the boundary
+    never shows up) is rendered as it is in the file, with bare LFs: its
+    lines that begin with a `.` were not dot-stuffed - a `.` line in the
+    message ended the response for the client.
+    """
+    return _BARE_LF_RE.sub(b"\r\n", data)
 
 
 ########################################################################
@@ -342,7 +360,7 @@ class POP3CommandHandler:
         if pop3_num not in self.msg_sizes:
             try:
                 msg = self._get_msg(pop3_num)
-                self.msg_sizes[pop3_num] = get_msg_size(msg)
+                self.msg_sizes[pop3_num] = len(crlf_lines(msg_as_bytes(msg)))
             except (KeyError, FileNotFoundError):
                 # Message disappeared (concurrent modification).
                 self.msg_sizes[pop3_num] = 0
@@ -441,7 +459,7 @@ class POP3CommandHandler:
             await self.client.push("-ERR message not available\r\n")
             return True
 
-        msg_bytes = msg_as_bytes(msg)
+        msg_bytes = crlf_lines(msg_as_bytes(msg))
         size = len(msg_bytes)
 
         # Remember the size we announce: LIST and STAT must keep reporting it
@@ -560,8 +578,8 @@ class POP3CommandHandler:
             await self.client.push("-ERR message not available\r\n")
             return True
 
-        headers = msg_headers_as_bytes(msg)
-        body = msg_as_bytes(msg, render_headers=False)
+        headers = crlf_lines(msg_headers_as_bytes(msg))
+        body = crlf_lines(msg_as_bytes(msg, render_headers=False))
 
         # Body starts with a blank line separator; split into lines and
         # take only the first num_lines.
